@@ -31,6 +31,9 @@ Lits == <<
   [src |-> "-1",     t |-> "int",   v |-> "-1"],
   [src |-> "+3",     t |-> "int",   v |-> "3"],
   [src |-> "0x10",   t |-> "int",   v |-> "16"],
+  [src |-> "-9223372036854775807", t |-> "int", v |-> "-9223372036854775807"],      \* signed and not representable as a double
+  [src |-> "+9007199254740993",    t |-> "int", v |-> "9007199254740993"],
+  [src |-> "18446744073709551617", t |-> "int", v |-> "18446744073709551617"],
   [src |-> "1.5",    t |-> "float", v |-> "1.5"],
   [src |-> "-2.5",   t |-> "float", v |-> "-2.5"],
   [src |-> "1e10",   t |-> "float", v |-> "10000000000.0"],
